@@ -514,21 +514,21 @@ pub fn fit_case(c: &Case) {
         mc::count("fit_alpha0_monotonicity_only");
     } else {
         mc::count("stationarity_checked");
-        if verdict.ratio > 1e-5 && std::env::var("C09_DEBUG").is_ok() {
-            eprintln!("DBG ratio {:e} {} n={} p={} k={} alpha={} map={:?} ugly={}", verdict.ratio, c.family, n, p, k, c.alpha, c.map, c.ugly);
-        }
-        mc::count(if verdict.ratio <= 1e-8 {
-            "stationarity_ratio<=1e-8"
-        } else if verdict.ratio <= 1e-6 {
-            "stationarity_ratio<=1e-6"
-        } else if verdict.ratio <= 1e-5 {
-            "stationarity_ratio<=1e-5"
-        } else if verdict.ratio <= 1e-4 {
-            "stationarity_ratio<=1e-4"
-        } else if verdict.ratio <= 1e-3 {
-            "stationarity_ratio<=1e-3"
-        } else {
-            "stationarity_ratio>1e-3"
+        let small = xclass == "small-features";
+        let r = verdict.ratio;
+        mc::count(match (small, r <= 1e-8, r <= 1e-6, r <= 1e-5, r <= 1e-4, r <= 1e-3) {
+            (true, true, ..) => "stationarity_small_features_ratio<=1e-8",
+            (true, _, true, ..) => "stationarity_small_features_ratio<=1e-6",
+            (true, _, _, true, ..) => "stationarity_small_features_ratio<=1e-5",
+            (true, _, _, _, true, _) => "stationarity_small_features_ratio<=1e-4",
+            (true, _, _, _, _, true) => "stationarity_small_features_ratio<=1e-3",
+            (true, ..) => "stationarity_small_features_ratio>1e-3",
+            (false, true, ..) => "stationarity_large_features_ratio<=1e-8",
+            (false, _, true, ..) => "stationarity_large_features_ratio<=1e-6",
+            (false, _, _, true, ..) => "stationarity_large_features_ratio<=1e-5",
+            (false, _, _, _, true, _) => "stationarity_large_features_ratio<=1e-4",
+            (false, _, _, _, _, true) => "stationarity_large_features_ratio<=1e-3",
+            (false, ..) => "stationarity_large_features_ratio>1e-3",
         });
     }
     if verdict.g_final > 1e-8 {
